@@ -1,2 +1,402 @@
-def run_constraints(chk, tier, rng):
-    chk.note("constraints part not built yet")
+"""C13, constraint-bookkeeping clause (ShapedTensor): "a tensor reported valid satisfies every
+constraint, adding an incompatible constraint is refused without side effects, removing a
+constraint never alters data"; an edit keeps the tail / zero-prepends along the edited dimension.
+
+T: ConstraintsMC - the code's three predicates (dimensionality / compatible / consistent) and the
+   branch structure of reconstrain / the value setter (Mech) against the abstract meaning (Abs):
+     D  bounded programs of add / edit / remove / assign from an ignored tensor, strict x live,
+        invariants over ALL operations at every reachable state (one-step look-ahead), the
+        invariant work of one exploration shared by several single-worker TLC runs;
+     P  all constraint dictionaries over the dims and sizes x all probe shapes (no depth bound);
+     U  a small universe explored without any depth bound, with the strict / live setters.
+A: every edge of emitted graphs on a real ShapedTensor (buffer and nn.Parameter storage, the ignored
+   values cycling through None / empty / UninitializedBuffer / UninitializedParameter).
+B: random longer programs (dims -4..3, rank <= 4) validated by ConstraintsTrace.
+"""
+from __future__ import annotations
+import copy, json, random, time
+from concurrent.futures import ThreadPoolExecutor
+from ..core import Check, MachineryFailure
+from .. import tlc, graph, tracecheck
+from ..impl_constraints import ConstraintsImpl
+
+MODULE = "ConstraintsMC"
+STATE_INV = ["TypeOK", "ValidImpliesSatisfied", "CompatibleImpliesSatisfies", "NonStrictExact", "IndexSafe"]
+NAMED = ["AddRefusedNoSideEffects", "RemoveNeverAltersData", "EditKeepsTailOrZeroPrepends",
+         "PostAcceptValidIffSatisfied", "LiveAssign"]
+
+
+def consts(*, strict, live, depth, rank, sizes, wd=3, kinds=("recon", "assign"), part=0, nparts=1):
+    return dict(WD=wd, Sizes=set(sizes), MaxRank=rank, Strict0=bool(strict), Live0=bool(live),
+                OpKinds=set(kinds), MaxDepth=depth, Part=part, NParts=nparts)
+
+
+def _mc_jobs(tier):
+    """(name, constants, workers, counted): `counted` runs add their state counts to the evidence;
+    the other shares of the same exploration visit the same graph and only add invariant work."""
+    jobs = []
+    S4 = (0, 1, 2, 3)
+    if tier == "quick":
+        nparts = 3
+        for strict in (True, False):
+            for live in (False, True):
+                for p in range(nparts):
+                    jobs.append((f"D-r2-d3-{'s' if strict else 'n'}{'l' if live else 'x'}-{p}/{nparts}",
+                                 consts(strict=strict, live=live, depth=3, rank=2, sizes=S4, part=p, nparts=nparts),
+                                 1, p == 0))
+        for strict in (True, False):
+            jobs.append((f"P-r2-{'s' if strict else 'n'}",
+                         consts(strict=strict, live=False, depth=1000, rank=2, sizes=(0, 1, 2), kinds=("recon",)), 2, True))
+        jobs.append(("U-w1", consts(strict=True, live=False, depth=1000, rank=2, sizes=(1, 2), wd=1,
+                                    kinds=("recon", "assign", "toggle")), 2, True))
+    else:
+        nparts = 8
+        for strict in (True, False):
+            for live in (False, True):
+                for p in range(nparts):
+                    jobs.append((f"D-r2-d4-{'s' if strict else 'n'}{'l' if live else 'x'}-{p}/{nparts}",
+                                 consts(strict=strict, live=live, depth=4, rank=2, sizes=S4, part=p, nparts=nparts),
+                                 1, p == 0))
+        for strict in (True, False):
+            for p in range(nparts):
+                jobs.append((f"D-r3-d4-{'s' if strict else 'n'}-{p}/{nparts}",
+                             consts(strict=strict, live=strict, depth=4, rank=3, sizes=(0, 2, 3), part=p, nparts=nparts),
+                             1, p == 0))
+        for strict in (True, False):
+            jobs.append((f"P-r3-{'s' if strict else 'n'}",
+                         consts(strict=strict, live=False, depth=1000, rank=3, sizes=S4, kinds=("recon",)), 4, True))
+        jobs.append(("U-w2", consts(strict=True, live=False, depth=1000, rank=2, sizes=(1, 2), wd=2,
+                                    kinds=("recon", "assign", "toggle")), 4, True))
+    return jobs
+
+
+def _run_mc(job):
+    name, c, workers, counted = job
+    cfg = tlc.cfg_text(constants=c, invariants=STATE_INV + ["AllProps"])
+    res = tlc.run(MODULE, cfg, workers=workers, timeout=3000)
+    named = None
+    if res.violated:
+        # name the failing clause(s): the same run with the clauses as separate invariants
+        named = []
+        for inv in STATE_INV + NAMED:
+            r2 = tlc.run(MODULE, tlc.cfg_text(constants=c, invariants=[inv]), workers=workers, timeout=3000)
+            if r2.violated:
+                named.append((inv, r2.out[-3000:]))
+    return name, c, res, counted, named
+
+
+def _gen(job):
+    name, c = job
+    cfg = tlc.cfg_text(constants=c, invariants=["Emit"])
+    res = tlc.run(MODULE, cfg, workers=1, timeout=3000)
+    return name, c, res
+
+
+def _informative_converse():
+    """Not demanded by the property: does 'satisfies every constraint' imply 'reported valid'?"""
+    out = {}
+    for strict in (True, False):
+        c = consts(strict=strict, live=False, depth=3, rank=2, sizes=(1, 2), wd=2)
+        res = tlc.run(MODULE, tlc.cfg_text(constants=c, invariants=["SatisfiedImpliesValid"]), workers=1, timeout=600)
+        out["strict" if strict else "non-strict"] = ("fails" if "SatisfiedImpliesValid" in res.violated
+                                                     else ("holds" if res.ok else "error"))
+    return out
+
+
+# ------------------------------------------------------------------ direction A
+def _nontrivial_edge(state_key: str, op_key: str) -> bool:
+    return '"kind":"ready"' in state_key and ('"a":"recon"' in op_key or '"live":true' in state_key)
+
+
+def _signature_extra(rep):
+    op = rep.get("op") or {}
+    st = rep.get("state") or {}
+    out = {}
+    if isinstance(op, dict) and op.get("a") == "recon" and isinstance(st, dict) and "cons" in st:
+        w = len(st["cons"]) // 2
+        d = op.get("dim", 0)
+        has = -w <= d < w and st["cons"][d + w] != -1
+        out["action"] = "remove" if op.get("size") == -1 else ("edit" if has else "add")
+        out["kind"] = st.get("kind")
+        out["strict"] = st.get("strict")
+    obs = (rep.get("observed") or {}).get("ret") or {}
+    if isinstance(obs, dict) and obs.get("t") == "err":
+        out["raised"] = obs.get("e")
+    return out
+
+
+def replay_graph(chk: Check, g: graph.Graph, c: dict, *, budget, rng, param, deviate=None, report=True):
+    hdr = {"wd": c["WD"], "strict": c["Strict0"], "live": c["Live0"], "param": param, "ignseq": rng.randint(0, 5)}
+    make = lambda: ConstraintsImpl(hdr)
+    init_key = graph.canon(make().project())
+    if init_key not in g.states:
+        raise MachineryFailure(f"initial implementation state not in emitted graph {g.name}: {init_key}")
+    mism = []
+
+    def on_mismatch(sig, rep):
+        rep = dict(rep, hdr=hdr, graph=g.name)
+        sig = dict(sig, site="ShapedTensor/" + sig.get("site", "graph-replay"), storage="parameter" if param else "buffer")
+        sig.update(_signature_extra(rep))
+        sig["op"] = sig.get("action") or (sig["op"] if isinstance(sig.get("op"), str) else "path")
+        mism.append((sig, rep))
+        if report:
+            chk.violation(sig, rep)
+
+    stats = graph.replay(g, init_key, make, budget=budget, rng=rng, on_mismatch=on_mismatch, deviate=deviate,
+                         op_class=lambda op: ("recon-remove" if op.get("size") == -1 else "recon") if op.get("a") == "recon" else op.get("a"))
+    if report:
+        chk.evaluations += stats.edges
+        for k, o in stats.pairs:
+            if _nontrivial_edge(k, o):
+                chk.nontrivial.add(("cons", g.name, param, k, o))
+        chk.extra["constraints_replayed_edges"] = chk.extra.get("constraints_replayed_edges", 0) + stats.edges
+        chk.note(f"constraints replay {g.name} param={param}: {stats.edges} edges of {g.n_edges}, "
+                 f"{len(stats.states_visited)}/{len(g.states)} states, mismatches={len(stats.mismatches)}")
+    return stats, mism
+
+
+# ------------------------------------------------------------------ direction B
+def _rand_shape(rng, maxrank=4, maxsize=4, maxnumel=64):
+    while True:
+        r = rng.choice([0, 1, 1, 2, 2, 2, 3, 3, 4][: 2 * maxrank + 1])
+        sh = [rng.randint(0, maxsize) if rng.random() < 0.15 else rng.randint(1, maxsize) for _ in range(r)]
+        n = 1
+        for x in sh:
+            n *= max(x, 1)
+        if n <= maxnumel:
+            return sh
+
+
+def _shape_for(rng, st, wd):
+    """A shape that tends to agree with the current constraints (so that live assignment and
+    add are accepted often enough), sometimes deliberately off."""
+    cons = {i - wd: s for i, s in enumerate(st["cons"]) if s != -1}
+    if not cons or rng.random() < 0.3:
+        return _rand_shape(rng)
+    need = max(max(cons) + 1, 0) + max(-min(cons), 0) if st["strict"] else max(max(cons) + 1, abs(min(cons)))
+    r = min(4, max(need, 0) + rng.choice([0, 0, 0, 1]))
+    if rng.random() < 0.15 and r > 0:
+        r -= 1
+    sh = [rng.randint(1, 3) for _ in range(r)]
+    for d, s in cons.items():
+        if -r <= d < r and rng.random() < 0.9:
+            sh[d] = s
+    n = 1
+    for x in sh:
+        n *= max(x, 1)
+    return sh if n <= 64 else _rand_shape(rng)
+
+
+def _rand_op(rng, st, wd):
+    r = rng.random()
+    cons = {i - wd: s for i, s in enumerate(st["cons"]) if s != -1}
+    rank = len(st["shape"])
+    if r < 0.5:
+        u = rng.random()
+        if cons and u < 0.22:          # remove
+            return {"a": "recon", "dim": rng.choice(list(cons)), "size": -1}
+        if cons and u < 0.55:          # edit
+            return {"a": "recon", "dim": rng.choice(list(cons)), "size": rng.randint(0, 4) if rng.random() < 0.8 else 0}
+        d = rng.randint(-wd, wd - 1)
+        if st["kind"] == "ready" and rank > 0 and rng.random() < 0.8:
+            d = rng.randint(-rank, rank - 1) if rng.random() < 0.9 else rng.choice([rank, -rank - 1])
+            d = max(-wd, min(wd - 1, d))
+            size = st["shape"][d] if (-rank <= d < rank and rng.random() < 0.75) else rng.randint(0, 4)
+        else:
+            size = rng.randint(0, 4)
+        return {"a": "recon", "dim": d, "size": size if rng.random() < 0.97 else -1}
+    if r < 0.78:
+        return {"a": "assign", "shape": _shape_for(rng, st, wd)}
+    if r < 0.84:
+        return {"a": "assign_ign"}
+    if r < 0.92:
+        return {"a": "compatible", "shape": _shape_for(rng, st, wd)}
+    if r < 0.96:
+        return {"a": "set_strict", "b": rng.random() < 0.5}
+    return {"a": "set_live", "b": rng.random() < 0.5}
+
+
+def random_traces(rng, count, steps=24, wd=4):
+    traces = []
+    for _ in range(count):
+        hdr = {"wd": wd, "strict": rng.random() < 0.5, "live": rng.random() < 0.5, "param": rng.random() < 0.4,
+               "ignseq": rng.randint(0, 5)}
+        impl = ConstraintsImpl(hdr)
+        init = impl.project()
+        st = init
+        evs = []
+        for _ in range(steps):
+            o = _rand_op(rng, st, wd)
+            ret = impl.apply(o)
+            st = impl.project()
+            evs.append({"op": o, "ret": ret, "st": st})
+        traces.append({"hdr": {"init": init, "cfg": hdr, "waive": []}, "ev": evs})
+    return traces
+
+
+def _clause(ev, expected, diag):
+    if diag is not None and diag.get("refok") is False:
+        return "PropAt"
+    if not expected:
+        return "Unexplained"
+    cr, cs = graph.canon(ev["ret"]), graph.canon(ev["st"])
+    if not any(graph.canon(o["ret"]) == cr for o in expected):
+        return "RetOK"
+    if not any(graph.canon(o["st"]) == cs for o in expected):
+        return "StateOK"
+    return "OutcomeOK"
+
+
+def validate_traces(chk: Check, traces, site: str, shards=8):
+    stats, rej = tracecheck.validate("ConstraintsTrace", traces, shards=shards)
+    chk.traces += len(traces)
+    chk.transitions += stats["generated"]
+    chk.states += stats["distinct"]
+    nev = 0
+    for ti, t in enumerate(traces):
+        prev = t["hdr"]["init"]
+        for e in t["ev"]:
+            nev += 1
+            if prev["kind"] == "ready" and (e["op"]["a"] == "recon" or prev["live"]):
+                chk.nontrivial.add(("cons-trace", ti, nev))
+            prev = e["st"]
+    chk.evaluations += nev
+    chk.extra["constraints_trace_events"] = chk.extra.get("constraints_trace_events", 0) + nev
+    chk.note(f"constraints traces[{site}]: {len(traces)} traces, {nev} events, rejected lines={len(rej)}")
+    chk.sample({"kind": "constraints-trace", "hdr": traces[0]["hdr"]["cfg"], "first_events": traces[0]["ev"][:3]})
+    for r in rej:
+        t = traces[r["trace"]]
+        prev = t["ev"][r["line"] - 2]["st"] if r["line"] > 1 else t["hdr"]["init"]
+        exp = (r["diag"] or {}).get("expected")
+        rep = {"hdr": t["hdr"]["cfg"], "ops": [e["op"] for e in t["ev"][: r["line"]]], "line": r["line"],
+               "state": prev, "op": r["event"]["op"], "expected": exp,
+               "observed": {"ret": r["event"]["ret"], "st": r["event"]["st"]}}
+        sig = {"clause": _clause(r["event"], exp, r["diag"]), "op": r["event"]["op"].get("a"),
+               "site": "ShapedTensor/" + site, "storage": "parameter" if t["hdr"]["cfg"].get("param") else "buffer"}
+        sig.update(_signature_extra(rep))
+        sig["op"] = sig.get("action") or sig["op"]
+        chk.violation(sig, rep)
+    return stats, rej
+
+
+def canary_trace(chk: Check, traces, rejected_traces=()):
+    """One corrupted observation must be rejected at its line, the untouched copy accepted.
+    The source is a trace the validation accepted (a trace rejected for a genuine reason is a
+    reported violation, not a canary)."""
+    clean = [t for i, t in enumerate(traces) if i not in set(rejected_traces)]
+    if not clean:
+        chk.note("constraints canary: every recorded trace was rejected, trace canary skipped")
+        return
+    src = next((t for t in clean if any(e["st"]["kind"] == "ready" and e["st"]["data"] for e in t["ev"])), clean[0])
+    good = copy.deepcopy(src)
+    good["hdr"]["waive"] = []
+    bad = copy.deepcopy(good)
+    line = None
+    for i, e in enumerate(bad["ev"]):
+        if e["st"]["kind"] == "ready" and e["st"]["data"]:
+            e["st"]["data"][-1] = e["st"]["data"][-1] + 1      # one element is not the one the spec puts there
+            line = i + 1
+            break
+    if line is None:
+        bad["ev"][0]["st"]["valid"] = not bad["ev"][0]["st"]["valid"]
+        line = 1
+    stats, rej = tracecheck.validate("ConstraintsTrace", [good, bad], shards=1, max_waive_rounds=1)
+    lines = {(r["trace"], r["line"]) for r in rej}
+    if (1, line) not in lines or any(t == 0 for t, _ in lines):
+        raise MachineryFailure(f"constraints canary: expected exactly the corrupted trace rejected at line {line}, got {lines}")
+    chk.extra["constraints_canary_trace_rejected_at_line"] = line
+    chk.note(f"constraints canary: corrupted trace rejected at line {line}")
+
+
+def canary_replay(chk: Check, g: graph.Graph, c: dict, rng):
+    """A replay whose observations are corrupted (valid flag flipped after every accepted
+    reconstrain) must produce mismatches."""
+    def deviate(op, ret, st):
+        if op.get("a") == "recon" and ret.get("t") == "ok":
+            st = dict(st, valid=not st["valid"])
+        return ret, st
+    stats, mism = replay_graph(chk, g, c, budget=300, rng=random.Random(rng.random()), param=False,
+                               deviate=deviate, report=False)
+    if not mism:
+        raise MachineryFailure("constraints canary: deviating replay was accepted")
+    chk.extra["constraints_canary_replay_mismatches"] = len(mism)
+    chk.note(f"constraints canary: deviating replay rejected ({len(mism)} mismatches)")
+
+
+# ------------------------------------------------------------------ entry point
+def run_constraints(chk: Check, tier: str, rng: random.Random):
+    t0 = time.time()
+    quick = tier == "quick"
+    S4 = (0, 1, 2, 3)
+    gens = [(f"G-{'s' if s else 'n'}{'l' if l else 'x'}",
+             consts(strict=s, live=l, depth=2 if quick else 3, rank=2, sizes=S4 if quick or s != l else (0, 2, 3)))
+            for s in (True, False) for l in (False, True)]
+    if not quick:
+        gens.append(("G-r3-sl", consts(strict=True, live=True, depth=2, rank=3, sizes=(0, 2, 3))))
+        gens.append(("G-r3-nx", consts(strict=False, live=False, depth=2, rank=3, sizes=(0, 2, 3))))
+        gens.append(("G-toggle", consts(strict=True, live=False, depth=3, rank=2, sizes=(1, 2), wd=2,
+                                        kinds=("recon", "assign", "toggle", "probe"))))
+    else:
+        gens.append(("G-toggle", consts(strict=True, live=False, depth=2, rank=2, sizes=(1, 2), wd=2,
+                                        kinds=("recon", "assign", "toggle", "probe"))))
+    jobs = _mc_jobs(tier)
+    ex = ThreadPoolExecutor(max_workers=16)
+    gen_f = [ex.submit(_gen, j) for j in gens]          # first: the python side waits for these
+    mc_f = [ex.submit(_run_mc, j) for j in jobs]
+    conv_f = ex.submit(_informative_converse)
+
+    # ---- B (driver part, python only) while TLC is busy
+    ntr = 120 if quick else 2500
+    traces = random_traces(rng, ntr)
+
+    # ---- A: every emitted edge (quick: a stratified sample) on real objects
+    budget = 5000 if quick else None
+    first_graph = None
+    for f in gen_f:
+        name, c, res = f.result()
+        if not res.ok:
+            raise MachineryFailure(f"TLC generation run {name} failed: {res.out[-2000:]}")
+        g = graph.Graph.from_lines(res.printed())
+        if len(g.states) != res.distinct:
+            raise MachineryFailure(f"emitted graph {name} has {len(g.states)} states, TLC reports {res.distinct}")
+        g.name = name
+        chk.add_tlc("cons-gen:" + name, res)
+        for param in (False, True):
+            replay_graph(chk, g, c, budget=budget, rng=rng, param=param)
+        if first_graph is None:
+            first_graph = (g, c)
+            canary_replay(chk, g, c, rng)
+            k = g.order[min(len(g.order) - 1, 30)]
+            chk.sample({"kind": "constraints-outcome-table", "state": g.states[k], "first_ops": g.table[k][:2]})
+
+    # ---- B: TLC validates the recorded programs
+    _, rej = validate_traces(chk, traces, site="random-program", shards=6 if quick else 16)
+    canary_trace(chk, traces, {r["trace"] for r in rej})
+
+    # ---- T: exhaustive runs
+    for f in mc_f:
+        name, c, res, counted, named = f.result()
+        if res.violated:
+            clauses = [n for n, _ in (named or [])] or res.violated
+            for cl in clauses:
+                chk.violation({"clause": "MC:" + cl, "op": "spec", "site": "ConstraintsMC", "config": name.split("-")[0]},
+                              {"config": name, "constants": {k: (sorted(v) if isinstance(v, set) else v) for k, v in c.items()},
+                               "tlc_tail": dict(named or []).get(cl, res.out[-4000:])})
+        elif not res.ok:
+            raise MachineryFailure(f"TLC run {name} did not complete: {res.out[-2000:]}")
+        if counted:
+            chk.add_tlc("cons-mc:" + name, res)
+        else:
+            chk.mc_runs.append({"config": "cons-mc:" + name, "distinct": res.distinct, "generated": res.generated,
+                                "depth": res.depth, "wall_s": round(res.wall, 2), "exhaustive": True,
+                                "note": "share of the exploration above: same graph, not added to the totals"})
+        if counted:
+            chk.note(f"constraints mc {name}: {res.distinct} states, {res.generated} transitions, {res.wall:.1f}s, "
+                     f"violated={res.violated}")
+    conv = conv_f.result()
+    ex.shutdown()
+    if "error" in conv.values():
+        raise MachineryFailure(f"informative converse run failed: {conv}")
+    chk.extra["constraints_converse_satisfied_implies_valid"] = conv
+    chk.note(f"constraints (informative, not demanded): 'satisfies every constraint => reported valid' {conv}")
+    chk.note(f"constraints part: {time.time() - t0:.1f}s")
